@@ -55,6 +55,19 @@ def vars_from(func, callee_names):
             and any(isinstance(v, ast.Call) for v in vs)}
 
 
+def joins_child(ctx, cls, call, func, depth=0):
+    """the call is `self._child.join(...)` or a self-method that (transitively) joins the child"""
+    if last_attr(call) in ('join',) and receiver(call) == 'self._child':
+        return True
+    if last_attr(call) == 'terminate' and receiver(call) == 'self._child':
+        return True
+    if receiver(call) in ('self', 'super()') and depth < 2:
+        r = ctx.prog.resolve_call(call, func, cls)
+        if r and r[0] == 'func' and r[1].name not in ('wait', 'terminate', 'is_alive', 'close'):
+            return any(joins_child(ctx, cls, c, r[1], depth + 1) for c in calls_in(r[1].node))
+    return False
+
+
 def units(ctx):
     """(cls, method func, region name, stmts) for every implementation body to analyse"""
     P = ctx.prog
@@ -79,6 +92,17 @@ def units(ctx):
                     out.append((ff.cls, ff, 'parent', reg['parent']))
                 else:
                     out.append((ff.cls, ff, 'all', ff.node.body))
+    # helpers that wait on behalf of wait()/terminate() (e.g. a _join that drains the result pipe while waiting)
+    for cls, f, region, stmts in list(out):
+        if f.name not in ('wait', 'terminate'):
+            continue
+        for c in [c for st in stmts for c in calls_in(st)]:
+            if receiver(c) == 'self':
+                r = P.resolve_call(c, f, cls)
+                if r and r[0] == 'func' and r[1].qualname not in seen and r[1].name not in ('close', 'is_alive', '_release_child', 'wait', 'terminate') \
+                        and any(last_attr(x) in BLOCKING for x in calls_in(r[1].node)) and any('timeout' in p_ for p_ in r[1].all_params()):
+                    seen.add(r[1].qualname)
+                    out.append((r[1].cls, r[1], 'helper', r[1].node.body))
     return out
 
 
@@ -97,7 +121,7 @@ def run(ctx):
         # ------------------------------------------------------------ R1 bounded blocking
         if region == 'server' and f.name in ('close', '_release_child'):
             continue
-        if f.name in ('wait', 'terminate'):
+        if f.name in ('wait', 'terminate') or region == 'helper':
             for c in [c for st in stmts for c in calls_in(st)]:
                 nm = last_attr(c)
                 r = receiver(c) or ''
@@ -120,6 +144,17 @@ def run(ctx):
                                 for e in n.succ:
                                     if e.kind == 'true':
                                         good.add(e.dst.id)
+                    # or: the read follows a bounded connection.wait([... r ...], timeout) whose result contains the pipe
+                    for n in g.nodes:
+                        if n.kind == 'test' and isinstance(n.stmt, ast.If) and n.part in (None, 'post'):
+                            t = n.stmt.test
+                            if isinstance(t, ast.Compare) and len(t.ops) == 1 and isinstance(t.ops[0], ast.In) and norm(t.left) == r and isinstance(t.comparators[0], ast.Name):
+                                rv = t.comparators[0].id
+                                for st0 in walk_local(f.node):
+                                    if isinstance(st0, ast.Assign) and is_name(st0.targets[0], rv) and isinstance(st0.value, ast.Call) and (dotted(st0.value.func) or '').endswith('connection.wait'):
+                                        ta = st0.value.args[1] if len(st0.value.args) > 1 else next((k.value for k in st0.value.keywords if k.arg == 'timeout'), None)
+                                        if timeout_dependent(ta, tparams):
+                                            good |= {e.dst.id for e in n.succ if e.kind == 'true'}
                     dom = g.dominators(edge_ok=is_flow)
                     ok = bool(nodes) and all(dom.get(n.id, set()) & good for n in nodes)
                     # or: the endpoint's get() itself honours a timeout argument that is derived from the method's timeout
@@ -143,7 +178,8 @@ def run(ctx):
                               f'{F} waits for a reply to a request that does not carry the timeout: the server side may block indefinitely', where=loc(f, c))
                 elif nm in ('wait', 'accept') and (dotted(c.func) or '').endswith(('connection.wait', '.accept')):
                     n_block += 1
-                    ok = nm == 'wait' and (len(c.args) > 1 or any(k.arg == 'timeout' for k in c.keywords))
+                    targ = c.args[1] if len(c.args) > 1 else next((k.value for k in c.keywords if k.arg == 'timeout'), None)
+                    ok = nm == 'wait' and timeout_dependent(targ, tparams)
                     ctx.check('R1', f'{F}: {nm}() is bounded', ok, F, f'unbounded-{nm}', f'`{norm(c)}` in {F} has no timeout', where=loc(f, c))
             # remote_timeout = min(remote_timeout, timeout)
             if 'remote_timeout' in tparams:
@@ -154,7 +190,7 @@ def run(ctx):
         if f.name in ('wait', 'terminate'):
             dead_true = guard_dsts(g, DEAD_GUARDS, 'true')
             dom = g.dominators(edge_ok=is_flow)
-            join_nodes = [n for n in g.nodes if n.stmt is not None and n.part == 'eval' and in_stmts(n.stmt, stmts) and any(last_attr(c) in ('join', 'terminate') and receiver(c) == 'self._child' for c in n.calls())]
+            join_nodes = [n for n in g.nodes if n.stmt is not None and n.part == 'eval' and in_stmts(n.stmt, stmts) and any(joins_child(ctx, cls, c, f) for c in n.calls())]
             for n in g.nodes:
                 if n.kind != 'return' or n.part not in (None, 'eval') or not in_stmts(n.stmt, stmts):
                     continue
@@ -221,7 +257,7 @@ def run(ctx):
                 continue
             exprs = [n.stmt.test] if n.kind == 'test' else ([n.stmt] if not isinstance(n.stmt, (ast.If, ast.While, ast.For, ast.Try, ast.With)) else [])
             used = {a.attr for ex in exprs for a in ast.walk(ex) if isinstance(a, ast.Attribute) and is_name(a.value, 'self') and a.attr in start_only}
-            if not used or region == 'server' or f.name == '_release_child':
+            if not used or region in ('server', 'helper') or f.name == '_release_child':
                 continue
             n_use += 1
             # the guard test itself may mention nothing start-only; uses must be dominated by a passed guard
